@@ -155,13 +155,13 @@ Definition site_justification : list jentry := [
   J "_compressed/compressed.py" "CSC.__init__" 0 KSuper AMaybeRaw FDefault FDefault
     (Unjustified "forwards its argument to GCXS.__init__ unchanged; the promise is the caller's");
   J "_compressed/compressed.py" "CSC.from_scipy_sparse" 0 KGcxs ARaw FDefault FDefault
-    (Unjustified "external promise: scipy's csc arrays after asformat (has_sorted_indices is not checked)");
+    (Refuted "from_scipy_sparse_unsorted_indices");
   J "_compressed/compressed.py" "CSC.transpose" 0 KGcxs ARaw FDefault FDefault
     (Justified SharesArraysOfWf "same arrays, shape reversed, compressed axis 1 -> 0");
   J "_compressed/compressed.py" "CSR.__init__" 0 KSuper AMaybeRaw FDefault FDefault
     (Unjustified "forwards its argument to GCXS.__init__ unchanged; the promise is the caller's");
   J "_compressed/compressed.py" "CSR.from_scipy_sparse" 0 KGcxs ARaw FDefault FDefault
-    (Unjustified "external promise: scipy's csr arrays after asformat (has_sorted_indices is not checked)");
+    (Refuted "from_scipy_sparse_unsorted_indices");
   J "_compressed/compressed.py" "CSR.transpose" 0 KGcxs ARaw FDefault FDefault
     (Justified SharesArraysOfWf "same arrays, shape reversed, compressed axis 0 -> 1");
   J "_compressed/compressed.py" "GCXS._2d_transpose" 0 KGcxs ARaw FDefault FDefault
@@ -173,9 +173,9 @@ Definition site_justification : list jentry := [
   J "_compressed/compressed.py" "GCXS.from_coo" 0 KGcxs AMaybeRaw FDefault FDefault
     (Unjustified "arrays computed by _from_coo conversion (model of C05; judged at run time)");
   J "_compressed/compressed.py" "GCXS.from_scipy_sparse" 0 KGcxs ARaw FDefault FDefault
-    (Unjustified "external promise: scipy's csc arrays (has_sorted_indices is not checked)");
+    (Refuted "from_scipy_sparse_unsorted_indices");
   J "_compressed/compressed.py" "GCXS.from_scipy_sparse" 1 KGcxs ARaw FDefault FDefault
-    (Unjustified "external promise: scipy's csr arrays (has_sorted_indices is not checked)");
+    (Refuted "from_scipy_sparse_unsorted_indices");
   J "_compressed/compressed.py" "GCXS.reshape" 0 KGcxs AMaybeRaw FDefault FDefault
     (Unjustified "arrays computed by _resize/_from_coo conversion (model of C08; judged at run time)");
   J "_compressed/compressed.py" "GCXS.transpose" 0 KGcxs AMaybeRaw FDefault FDefault
@@ -355,6 +355,28 @@ Definition entry_flags (e : jentry) (prune : bool) : flags :=
 
 Definition find_entry (file func : string) (ord : Z) : option jentry :=
   find (fun e => String.eqb (j_file e) file && String.eqb (j_func e) func && (j_ord e =? ord)) site_justification.
+
+(* ------------------------------------------------------------------ GCXS.from_scipy_sparse *)
+
+(* GCXS.from_scipy_sparse / CSR.from_scipy_sparse / CSC.from_scipy_sparse (and GCXS(m), asarray(m)):
+   the three arrays of the SciPy csr/csc matrix are stored as they are.  A valid SciPy matrix has a
+   monotone indptr from 0 to nnz and in-range indices; sorted, duplicate-free rows are NOT part of
+   SciPy's format (scipy's own `A @ B` returns unsorted rows, `has_sorted_indices = False`). *)
+Definition scipy_valid {V} (m : gcxs V) : bool :=
+  match g_shape m, g_caxes m with
+  | [r; c], [a] =>
+    ((a =? 0) || (a =? 1)) && (0 <=? r) && (0 <=? c) &&
+    (length (g_indices m) =? length (g_data m))%nat &&
+    (Z.of_nat (length (g_indptr m)) =? row_size (g_shape m) (g_caxes m) + 1) &&
+    (znth (g_indptr m) 0 (-1) =? 0) &&
+    (znth (g_indptr m) (row_size (g_shape m) (g_caxes m)) (-1) =? Z.of_nat (length (g_data m))) &&
+    nondecreasing (g_indptr m) &&
+    forallb (fun i => (0 <=? i) && (i <? col_size (g_shape m) (g_caxes m))) (g_indices m)
+  | _, _ => false
+  end.
+
+Definition gcxs_from_scipy {V} (m : gcxs V) : gcxs V :=
+  mkGCXS (g_shape m) (g_caxes m) (g_data m) (g_indices m) (g_indptr m) (g_fill m).
 
 (* ------------------------------------------------------------------ offset concatenation *)
 
